@@ -9,6 +9,7 @@ property text).  Every row must match exactly; the domain is enumerated complete
 from . import absint as A
 from .absint import Engine, Auto, TOP, enum, PARSED, RESULT, OPTION
 from .common import norm
+from . import util
 from .sym import short
 
 P = "flussab::parser::Parsed::"
@@ -320,6 +321,31 @@ def run(ctx):
     finally:
         A.MODELS.clear()
         A.MODELS.update(saved)
+    # R2: the table above describes one call; it is the whole truth only if a combinator is pure plumbing - it reaches
+    # nothing but the closure it was handed, the error conversions, the modelled Result methods and its sibling
+    # combinators, and it cannot diverge on its own.  State kept between calls (a counter in a thread-local or a static,
+    # consulted to decide whether the continuation runs) or a panic of its own makes the outcome depend on history.
+    r2 = ctx.rule("C15-R2", "combinators are pure plumbing: they call only the closure handed in, From / Into conversions, the modelled Result / Try methods and sibling combinators; no panic edge, no state outside their arguments", floor=15)
+    ALLOWED_TAIL = ("FnOnce::call_once", "FnMut::call_mut", "Fn::call", "convert::From::from", "convert::Into::into", "Try>::branch", "::from_residual", "result::Result::map_err", "result::Result::map", "result::Result::and_then")
+    for fid, fn in sorted(facts.fns.items()):
+        nid = norm(fid)
+        base = nid.split("::{closure")[0]
+        if base not in SPEC or fn.crate in ("ext", "promoted"):
+            continue
+        bad = []
+        for bb, t in fn.calls():
+            if fn.blocks[bb]["cleanup"]:
+                continue
+            cn = norm(util.cname(t))
+            if cn.startswith((P, RX)) or cn == FROM or cn.endswith(ALLOWED_TAIL) or any(x in cn for x in ("FromResidual", "ops::function::FnOnce")):
+                continue
+            bad.append((bb, "calls %s" % short(cn)))
+        for bi, b in enumerate(fn.blocks):
+            if b["cleanup"]:
+                continue
+            if b["term"]["k"] == "assert":
+                bad.append((bi, "can panic (%s)" % b["term"].get("msg", "assert")))
+        r2.check(not bad, "%s/pure-plumbing" % nid, "%s reaches only its closure, conversions and sibling combinators and cannot diverge on its own%s" % (short(nid), "" if not bad else ": " + "; ".join(w for _, w in bad[:3])), fn.loc(bad[0][0]) if bad else fn.loc())
     ctx.extra["exhaustive"] = True
     ctx.extra["spec_rows"] = rows
     ctx.assume("the closure parameter is an arbitrary callee that may return any value of its declared return type")
